@@ -382,14 +382,27 @@ impl Checker<'_> {
                 _ => {}
             }
         }
+        let has_pred = inputs.iter().any(|i| i.predicate_gas_used().is_some());
         if has_change && data_msgs.is_empty() {
-            c.report.count("c04.failed_fee_balance_checked");
-            if inp != out + *total_fee as u128 {
-                c.violation(
-                    "failed_tx_fee_differs_from_balance_delta",
-                    format!("tx {} failed ({reason}): base in {inp}, base out {out}, total_fee {total_fee}", p.label()),
-                    replay("failed"),
-                );
+            if has_pred {
+                // the VM refunds predicate gas (known fee discrepancy, judged by C03): only require that a fee left the payer
+                c.report.count("c04.failed_fee_balance_excluded_predicate_inputs");
+                if plan.gas_price > 0 && inp <= out {
+                    c.violation(
+                        "failed_tx_nothing_left_the_payer",
+                        format!("tx {} failed ({reason}): base in {inp}, base out {out}", p.label()),
+                        replay("failed"),
+                    );
+                }
+            } else {
+                c.report.count("c04.failed_fee_balance_checked");
+                if inp != out + *total_fee as u128 {
+                    c.violation(
+                        "failed_tx_fee_differs_from_balance_delta",
+                        format!("tx {} failed ({reason}): base in {inp}, base out {out}, total_fee {total_fee}", p.label()),
+                        replay("failed"),
+                    );
+                }
             }
         }
         // the coinbase got exactly the fee
@@ -432,7 +445,7 @@ fn mint_id(p: &Produced, sess: &ChainSession) -> [u8; 32] {
 pub fn run(args: &Args, report: &Report) {
     let ctx = Ctx::new(args, report);
     let shards = args.by_tier(16, 32);
-    let sessions = args.by_tier(3, 30);
+    let sessions = args.by_tier(20, 240);
     let blocks = args.by_tier(8u32, 12);
     let c = ctx.clone();
     for_each_session(args, report, shards, sessions, move |case, rng| {
@@ -519,16 +532,18 @@ pub fn run(args: &Args, report: &Report) {
             }
         }
     });
-    report.require("c04.failed_checked", args.by_tier(400, 4_000));
-    report.require("c04.failed_after_storage_write", args.by_tier(150, 1_500));
-    report.require("c04.failed_after_balance_or_outbox_effect", args.by_tier(50, 500));
-    report.require("c04.failed_with_retryable_message_input", args.by_tier(10, 100));
-    report.require("c04.failed_with_message_coin_input", args.by_tier(5, 50));
-    report.require("c04.skipped_checked", args.by_tier(400, 4_000));
-    report.require("c04.block_with_vs_without_skipped", args.by_tier(150, 1_500));
-    report.require("c04.skipped.TransactionIdCollision", args.by_tier(20, 200));
-    report.require("c04.skipped.TransactionValidity.CoinDoesNotExist", args.by_tier(20, 200));
-    report.require("c04.failed.Revert", args.by_tier(100, 1_000));
+    if args.replay.is_none() {
+        report.require("c04.failed_checked", args.by_tier(400, 4_000));
+        report.require("c04.failed_after_storage_write", args.by_tier(150, 1_500));
+        report.require("c04.failed_after_balance_or_outbox_effect", args.by_tier(50, 500));
+        report.require("c04.failed_with_retryable_message_input", args.by_tier(10, 100));
+        report.require("c04.failed_with_message_coin_input", args.by_tier(5, 50));
+        report.require("c04.skipped_checked", args.by_tier(400, 4_000));
+        report.require("c04.block_with_vs_without_skipped", args.by_tier(150, 1_500));
+        report.require("c04.skipped.TransactionIdCollision", args.by_tier(20, 200));
+        report.require("c04.skipped.TransactionValidity.CoinDoesNotExist", args.by_tier(20, 200));
+        report.require("c04.failed.Revert", args.by_tier(100, 1_000));
+    }
     report.finish(
         args,
         "exploration",
